@@ -12,7 +12,7 @@ def run(tier, replay=None):
               "(UrlSpace.tla: every (key, class) singly x every tail shape, pairs of (key, class) x tails, /patch, /urlgen/*, "
               "licence POSTs, /api, receiver method x path x body x Content-Length); distinct = distinct abstract requests")
     c.assumptions = [
-        "a handler that has not returned within 2 s is re-run alone with a 10 s bound (quick: 5 s); not returning then = does "
+        "a handler that has not returned within 2 s is re-run alone with a 20 s bound (quick: 8 s); not returning then = does "
         "not terminate (requests in chunked low-latency mode may wait by design and are exempt; traffic states s/h are not generated)",
         "a child process whose heap grows beyond 1 GiB during one request is treated like a first-stage timeout",
         "4xx is demanded only for the classes listed in UrlSpaceOps.MalformedAlways/MalformedFor/BuOutOfRange, 404 only for "
@@ -33,7 +33,7 @@ def run(tier, replay=None):
     # (V) real code
     drive = vlib.build_harness(cmd="c08")
     trace = c.work / "c08.ndjson"
-    reps1, reps2, cbound, budget = (1, 1, 5000, 24) if tier == "quick" else (3, 1, 10000, 60)
+    reps1, reps2, cbound, budget = (1, 1, 8000, 24) if tier == "quick" else (3, 1, 20000, 60)
     st = vlib.run_driver(drive, ["-gen", genf, "-out", trace, "-seed", c.seed, "-work", c.work / "drv", "-workers", 4,
                                  "-reps1", reps1, "-reps2", reps2, "-cbound", cbound, "-budget", budget], timeout=3000)
     r, lines = c.validate_trace("UrlSpace_Trace", trace, timeout=3000)
